@@ -22,6 +22,10 @@ CHECKS = {
   technique='property-based testing (Hypothesis) of synthetic atmospheres against an explicit-loop reference of the transit-depth integral (independent chord geometry, P/kT density, table x mixing-ratio opacities, modelled saturation cut-off) plus metamorphic bounds and opacity-scaling relation',
   text='Generated worlds (planet, star, 2-40 layers, pressure range, temperature profile, 1-3 molecules with tables of every magnitude class, optional CIA/Rayleigh/clouds, both path-length methods) are run through TransmissionModel.model() and compared with a from-first-principles reference of chords, optical depth, transmittance and depth, plus depth bounds, bare-planet equality and monotonicity under opacity scaling; exploration level.',
   note='Path-length radii conventions of the two methods are adopted from the code (stated in DESIGN.md); CIA/Rayleigh/cloud opacities are taken as reported by the contribution (judged in C03/C19); atmospheres are kept gravitationally bound by construction.'),
+ 'C02': dict(
+  technique='property-based testing (Hypothesis) against an independent reference of the layered plane-parallel emission integral (own Planck function, own Gauss-Legendre mapping, modelled clamp) plus the isothermal blackbody identity and hot/cold bounds as metamorphic consequences',
+  text='Generated worlds with EmissionModel/DirectImageModel (1-8 Gauss points, isothermal/monotone/inverted profiles, all opacity magnitudes, CIA, Rayleigh) are compared with a reference integral on spectrum, per-angle intensities, quadrature nodes and layer transmittance differences; independently the isothermal identity and coldest/hottest blackbody bounds are asserted; exploration level.',
+  note='Cross-section mode here (k-table mode in C20 against the same oracle); clouds excluded from emission worlds; direct-image constant 1/2 adopted as convention; rtol 1e-8.'),
 }
 
 NOT_APPLICABLE = {}
